@@ -142,3 +142,26 @@ check("C06", "model_checking",
       "follows the kernel and only matters for 'matched' accounting; macOS/Windows/in-process sets unbound here.",
       "TLC exhaustive model checking of ReceiverSet.tla + gated replay of TLC-generated interleavings",
       "DESIGN.md 3.4, 6 (C06)")
+check("C07", "model_checking",
+      "Router.tla (proxy mutex, crossbeam message queue, wake-up channel, router thread taking one message per wake-up, "
+      "dispatch) is checked exhaustively by TLC for routes registered from 2 proxy threads while messages are queued or in "
+      "flight and senders drop anywhere: RouteOnceInOrder, DroppedOnce, DroppedAfterLast, AllDispatched. Seeded free-running "
+      "scenarios (1..6 routes, callback and crossbeam-forwarding, 1..3 registering threads, 0..5 messages per route, some "
+      "queued before registration) are recorded through the router.rs hooks and harness events, and every recorded step is "
+      "validated by TLC against RouterTrace.tla (own handler, next message of that route, closure only when disconnected "
+      "and drained, exactly one drop per callback); the harness also compares final per-route deliveries.",
+      "Interleavings of the real run are those the scheduler (with seeded jitter) produces, not forced ones; 32 routes / 8 "
+      "threads / 50 messages of the property text are scaled to 6 / 3 / 5 per scenario, many scenarios.",
+      "TLC exhaustive model checking of Router.tla + TLC trace validation of recorded executions (RouterTrace.tla)",
+      "DESIGN.md 3.7, 6 (C07)")
+check("C17", "model_checking",
+      "Router.tla with shutdown (idempotent, from 1-2 threads racing add_route) and proxy drop: StoppedWhenReturned, "
+      "NoCallAfterReturn, NoPanic, ShutdownReturns are checked exhaustively; the configs BreakInnerOnly=TRUE and "
+      "PanicOnWakeClosed=TRUE (the code as found) violate them. Free-running scenarios stopped by shutdown or by dropping "
+      "the proxy are validated against RouterTrace.tla: a handler entry after shutdown's return event, a callback still "
+      "alive at that event, a route offered after shutdown that is invoked, or a recorded panic reject the trace; the "
+      "harness additionally checks that crossbeam receivers are disconnected immediately after shutdown() returns and that "
+      "no thread hangs.",
+      "Free-running schedules; up to 6 routes and 3 proxy threads per scenario.",
+      "TLC exhaustive model checking of Router.tla + TLC trace validation of recorded executions (RouterTrace.tla)",
+      "DESIGN.md 3.7, 6 (C17)")
